@@ -28,7 +28,14 @@ func runC07(c *Ctx, r *Report) {
 	r.Doc("R-C07.3", "no lossy or ambiguous conversion on the signing path")
 	r.Doc("R-C07.4", "every success return of Verify passed the signature check")
 	r.Doc("R-C07.5", "the loops that turn predecessor and reference lists into signed content process every element")
-	loopsComplete(c, r, "R-C07.5", func(fn *Fn) bool { return rootNamed(fn, "ToHashable", "toBuffer") }, "links after the point where the loop stops are not part of the signed bytes and can be replaced without invalidating the signature")
+	hashReach := c.CG.Reach([]*Fn{p.FuncI("entry", "", "ToHashable").Root(), p.FuncI("entry", "", "toBuffer").Root()}, false)
+	loopsComplete(c, r, "R-C07.5", func(fn *Fn) bool {
+		if rootNamed(fn, "ToHashable", "toBuffer") {
+			return true
+		}
+		_, ok := hashReach[fn.Root()]
+		return ok && inPkgs(c.P, fn, "entry") && !ast.IsExported(fn.Root().Name[strings.LastIndex(fn.Root().Name, ".")+1:])
+	}, "links after the point where the loop stops are not part of the signed bytes and can be replaced without invalidating the signature")
 	th := p.FuncI("entry", "", "ToHashable")
 	tb := p.FuncI("entry", "", "toBuffer")
 	hashT := p.Named("iface", "Hashable")
@@ -127,26 +134,15 @@ func runC07(c *Ctx, r *Report) {
 	r.Check(retOK, "R-C07.1", r.Key("R-C07.1", tb, "result", ""), marshalCall.Pos(), "toBuffer returns the marshalled bytes", "toBuffer does not return the result of json.Marshal")
 
 	// ---- R-C07.2 element-wise lists in ToHashable
-	for _, lf := range []struct{ getter, field string }{{"GetNext", "Next"}, {"GetRefs", "Refs"}} {
-		key := r.Key("R-C07.2", th, "list", lf.field)
-		out := stored[lf.field]
-		ms, ok := out.(*ssa.MakeSlice)
-		if !ok {
-			r.Violate("R-C07.2", key, th.Body.Pos(), "Hashable."+lf.field+" is not a freshly made list filled element by element")
-			continue
-		}
-		// length = len(<getter result>)
-		lenOK := false
+	// elementwise: ms is a fresh list with the length of the source list whose element i is computed from element i
+	// of the source list
+	elementwise := func(ms *ssa.MakeSlice, isSrc func(ssa.Value) bool, srcName string) (lenOK, elemOK bool, nst int, why string) {
 		if lc, ok := ms.Len.(*ssa.Call); ok {
-			if b, ok := lc.Call.Value.(*ssa.Builtin); ok && b.Name() == "len" {
-				if g, ok := lc.Call.Args[0].(*ssa.Call); ok && g.Call.IsInvoke() && g.Call.Method.Name() == lf.getter {
-					lenOK = true
-				}
+			if b, ok := lc.Call.Value.(*ssa.Builtin); ok && b.Name() == "len" && isSrc(lc.Call.Args[0]) {
+				lenOK = true
 			}
 		}
-		// element stores
-		elemOK, nst := true, 0
-		why := ""
+		elemOK = true
 		if refs := ms.Referrers(); refs != nil {
 			for _, ref := range *refs {
 				ia, ok := ref.(*ssa.IndexAddr)
@@ -159,15 +155,14 @@ func runC07(c *Ctx, r *Report) {
 						continue
 					}
 					nst++
-					// the stored value derives from element <same index> of the getter's own result
 					good := false
 					for x := range backSlice(st.Val, nil) {
 						if ld, ok := x.(*ssa.UnOp); ok && ld.Op == token.MUL {
 							if src, ok := ld.X.(*ssa.IndexAddr); ok && src.Index == ia.Index {
-								if g, ok := src.X.(*ssa.Call); ok && g.Call.IsInvoke() && g.Call.Method.Name() == lf.getter {
+								if isSrc(src.X) {
 									good = true
 								} else {
-									why = "the source list is not the getter's own result (a helper, sort or set sits in between)"
+									why = "the source list is not " + srcName + " (a sort, set or other list sits in between)"
 								}
 							}
 						}
@@ -175,12 +170,61 @@ func runC07(c *Ctx, r *Report) {
 					if !good {
 						elemOK = false
 						if why == "" {
-							why = "element i of the signed list is not computed from element i of " + lf.getter + "()"
+							why = "element i of the signed list is not computed from element i of " + srcName
 						}
 					}
 				}
 			}
 		}
+		return
+	}
+	for _, lf := range []struct{ getter, field string }{{"GetNext", "Next"}, {"GetRefs", "Refs"}} {
+		key := r.Key("R-C07.2", th, "list", lf.field)
+		out := stored[lf.field]
+		isGetter := func(v ssa.Value) bool {
+			g, ok := v.(*ssa.Call)
+			return ok && g.Call.IsInvoke() && g.Call.Method.Name() == lf.getter
+		}
+		var ms *ssa.MakeSlice
+		isSrc, srcName := isGetter, lf.getter+"()"
+		switch o := out.(type) {
+		case *ssa.MakeSlice:
+			ms = o
+		case *ssa.Extract:
+			// the converting loop lives in a helper: cidsB58(e.GetNext()) — the helper's list parameter is the source
+			if call, ok := o.Tuple.(*ssa.Call); ok {
+				out = call
+				_ = call
+			}
+		}
+		if call, ok := out.(*ssa.Call); ok && ms == nil {
+			if g := call.Call.StaticCallee(); g != nil && p.firstParty(calleePkg(g)) && len(g.Blocks) > 0 {
+				var par *ssa.Parameter
+				for ai, a := range call.Call.Args {
+					if isGetter(a) && ai < len(g.Params) {
+						par = g.Params[ai]
+					}
+				}
+				if par != nil {
+					allInstrs(g, false, func(ins ssa.Instruction) {
+						if ret, ok := ins.(*ssa.Return); ok && len(ret.Results) > 0 {
+							if cst, isC := ret.Results[len(ret.Results)-1].(*ssa.Const); len(ret.Results) == 1 || (isC && cst.IsNil()) {
+								if m, ok := ret.Results[0].(*ssa.MakeSlice); ok {
+									ms = m
+								}
+							}
+						}
+					})
+					isSrc = func(v ssa.Value) bool { return v == ssa.Value(par) }
+					srcName = "the list handed to " + g.Name() + " (" + lf.getter + "())"
+				}
+			}
+		}
+		if ms == nil {
+			r.Violate("R-C07.2", key, th.Body.Pos(), "Hashable."+lf.field+" is not a freshly made list filled element by element")
+			continue
+		}
+		lenOK, elemOK, nst, why := elementwise(ms, isSrc, srcName)
 		r.Check(lenOK && elemOK && nst > 0, "R-C07.2", key, ms.Pos(),
 			"the signed "+lf.field+" list has the getter's length and element i comes from element i",
 			fmt.Sprintf("the signed %s list is not an element-wise image of %s() (length-from-getter=%v, element-wise=%v): %s — duplicates, order or membership of links are not bound by the signature", lf.field, lf.getter, lenOK, elemOK, why))
